@@ -357,18 +357,18 @@ end
 /-! ### the hypotheses are satisfiable -/
 
 /-- over `ℝ` with the real `sin`, `cos`, `sqrt` both libm hypotheses hold -/
-noncomputable def realTransc : Transc ℝ :=
+noncomputable def realTranscC15 : Transc ℝ :=
   ⟨Real.sqrt, Real.exp, id, Real.sin, Real.cos, Real.tan, id, id, id, id, id, id, id, id,
    fun y _ => y, fun x _ => x, fun x _ => x, Real.pi, 0, 0, 0, 0⟩
 
-example : (∀ x, realTransc.sin x * realTransc.sin x + realTransc.cos x * realTransc.cos x = 1) ∧
-    (∀ x, 0 ≤ x → realTransc.sqrt x * realTransc.sqrt x = x) :=
+example : (∀ x, realTranscC15.sin x * realTranscC15.sin x + realTranscC15.cos x * realTranscC15.cos x = 1) ∧
+    (∀ x, 0 ≤ x → realTranscC15.sqrt x * realTranscC15.sqrt x = x) :=
   ⟨fun x => by show Real.sin x * Real.sin x + Real.cos x * Real.cos x = 1; nlinarith [Real.sin_sq_add_cos_sq x],
    fun x hx => Real.mul_self_sqrt hx⟩
 
 /-- a concrete Arvo matrix over `ℝ` (draws 0.3, 0.6, 0.9) is a proper rotation -/
-example : @M3.IsRotation ℝ (fieldScalar realTransc) (@arvoMatrix ℝ (fieldScalar realTransc) 0.3 0.6 0.9 none) :=
-  C15_arvo_orthonormal realTransc
+example : @M3.IsRotation ℝ (fieldScalar realTranscC15) (@arvoMatrix ℝ (fieldScalar realTranscC15) 0.3 0.6 0.9 none) :=
+  C15_arvo_orthonormal realTranscC15
     (fun x => by show Real.sin x * Real.sin x + Real.cos x * Real.cos x = 1; nlinarith [Real.sin_sq_add_cos_sq x])
     (fun x hx => Real.mul_self_sqrt hx) _ _ _ (by norm_num) (by norm_num)
 
